@@ -2,3 +2,4 @@
 import HitenModel.Props.C01
 import HitenModel.Props.C02
 import HitenModel.Props.C13
+import HitenModel.Props.C16
